@@ -62,7 +62,7 @@ T = {
          "Decides: the hook wraps exactly the abstract interface methods and every concrete class obtains each of the four from a class body (112 obligations); installed checks compare whole shape tuples exactly with `is not None` tests (no truthiness on shapes), failing branches raise, checked values are forwarded; constructors call their validators and validators raise on the documented predicate with tuple (non-broadcasting) comparisons - compared as raise-sets (propositionally exact over the atomic tests) when the guards are spelled differently; validators are called on the children's shapes / condition shapes respectively. "
          "Does NOT decide the exact shape of every successful return through arbitrary children.", "3 C13"),
  "C14": ("traced-value taint analysis over the call graph + static-field and effect lint",
-         "Decides: no Python control flow / bool()/int()/float() / numpy / math call on a traced value in any bijection/distribution method, unwrap or the bisection search (~120 functions); no array in a static field; no array bound into a closure or functools.partial stored in a model; no hidden state or foreign randomness; helper-function parameters are traced iff a call site passes a traced value; every non-Module class of the package (jit-static: losses, callables stored in module fields) keeps identity equality or defines an __eq__ that compares the full value of each attribute its other methods read, and stays hashable; no jit-compiled nested function reads a variable that a loop of its enclosing function rebinds (trace-time capture); every eqx.error_if is consumed through its result; no wrapper's unwrap passes Python-static leaves (shape ints, flags) through a jax operation; no cached_property on module classes. "
+         "Decides: no Python control flow / bool()/int()/float() / numpy / math call on a traced value in any bijection/distribution method, unwrap or the bisection search (~120 functions); no array in a static field; no array bound into a closure or functools.partial stored in a model; no hidden state or foreign randomness; helper-function parameters are traced iff a call site passes a traced value; every non-Module class of the package (jit-static: losses, callables stored in module fields) keeps identity equality or defines an __eq__ that compares the full value of each attribute its other methods read, and stays hashable; no jit-compiled nested function reads a variable that a loop of its enclosing function rebinds (trace-time capture); every eqx.error_if is consumed through its result; no wrapper's unwrap passes Python-static leaves (shape ints, flags) through a jax operation; no cached_property on module classes; fields annotated as Python ints / tuples hold Python values (not traced arrays); arraylike_to_array is jnp.asarray behind the ArrayLike test (strongly typed leaves). "
          "Does NOT decide numerical equality of jitted and eager results nor equinox's serialisation.", "3 C14"),
  "C15": ("reaching-definition dataflow on a hand-built CFG + train/val taint + PRNG-key typestate",
          "Decides: co-permutation with one key and complementary slices of one bound (partition); per-epoch shuffles with fresh keys rebuilt only from themselves; prefix batching with one batch size and strict zip; no validation-derived value reaches step; every per-batch step/loss call gets a key that changes with the iteration; caller/callee argument order. "
